@@ -13,6 +13,7 @@ macro_rules! grid {
             (8, 3) => $m!(BUintD8<3>, BIntD8<3> $(, $a)*),
             (8, 5) => $m!(BUintD8<5>, BIntD8<5> $(, $a)*),
             (8, 17) => $m!(BUintD8<17>, BIntD8<17> $(, $a)*),
+            (8, 300) => $m!(BUintD8<300>, BIntD8<300> $(, $a)*),
             (16, 1) => $m!(BUintD16<1>, BIntD16<1> $(, $a)*),
             (16, 3) => $m!(BUintD16<3>, BIntD16<3> $(, $a)*),
             (16, 5) => $m!(BUintD16<5>, BIntD16<5> $(, $a)*),
@@ -21,6 +22,7 @@ macro_rules! grid {
             (64, 1) => $m!(BUint<1>, BInt<1> $(, $a)*),
             (64, 2) => $m!(BUint<2>, BInt<2> $(, $a)*),
             (64, 3) => $m!(BUint<3>, BInt<3> $(, $a)*),
+            (64, 1025) => $m!(BUint<1025>, BInt<1025> $(, $a)*),
             _ => UNSUPPORTED.to_string(),
         }
     };
